@@ -13,6 +13,11 @@
 #include <cppcms/json.h>
 #include "session_memory_storage.h"
 #include "session_posix_file_storage.h"
+#include "session_tcp_storage.h"
+#include "tcp_cache_server.h"
+#include "cache_storage.h"
+#include <netinet/in.h>
+#include <sys/socket.h>
 #include <deque>
 #include <dirent.h>
 #include <sys/stat.h>
@@ -159,20 +164,26 @@ static std::vector<SOp> salphabet(bool with_gc){ std::vector<SOp> a; const int d
 	int ticks[]={3,6}; for(int i=0;i<2;i++){ SOp o; o.kind=3; o.sid=0; o.dl=0; o.data=0; o.n=ticks[i]; o.name="tick("+std::to_string(ticks[i])+")"; a.push_back(o); } if(with_gc){ SOp o; o.kind=4; o.sid=0; o.dl=0; o.data=0; o.n=0; o.name="gc"; a.push_back(o); } return a; }
 static const char *SSID[2]={"0123456789abcdef0123456789abcdef","fedcba9876543210fedcba9876543210"};
 static void storage_pass(int sh,int n,int depth_mem,int depth_file,const std::string &dir){ uint64_t tickc=0;
-	for(int kind=0;kind<2;kind++) for(int prologue=0;prologue<2;prologue++){ bool files=kind==1; int depth=files?depth_file:depth_mem; std::vector<SOp> A=salphabet(files); std::vector<int> h;
-		std::function<void(int)> rec=[&](int d){ if(d>0){ vf::eval(); g_now=1000000; std::string hs; for(size_t i=0;i<h.size();i++){ if(i) hs+=" ; "; hs+=A[h[i]].name; } std::string cs=std::string(files?"files":"memory")+" storage, start="+(prologue?"7 expired sessions":"empty")+" ["+hs+"]"; vf::announce("storage-seq "+cs);
+	// network storage: two in-process cache servers keeping sessions in memory storages, one tcp_storage client (sids are spread over the servers); the servers live for
+	// the whole pass, every sequence starts by removing the sids it uses and verifying that they are gone
+	std::vector<std::unique_ptr<cppcms::impl::tcp_cache_service> > nsrv; std::unique_ptr<sessions::tcp_storage> nclient; { std::vector<std::string> ips; std::vector<int> ports; for(int i=0;i<2;i++){ int port=0; for(int a=0;a<200;a++){ port=20000+((getpid()*5+i*1777+a*4099)%40000); int sck=socket(AF_INET,SOCK_STREAM,0); sockaddr_in ad; memset(&ad,0,sizeof ad); ad.sin_family=AF_INET; ad.sin_port=htons(port); ad.sin_addr.s_addr=htonl(INADDR_LOOPBACK); int r=bind(sck,(sockaddr*)&ad,sizeof ad); ::close(sck); if(r==0) break; } ports.push_back(port); ips.push_back("127.0.0.1");
+			booster::shared_ptr<sessions::session_storage_factory> sf(new sessions::session_memory_storage_factory()); nsrv.push_back(std::unique_ptr<cppcms::impl::tcp_cache_service>(new cppcms::impl::tcp_cache_service(cppcms::impl::thread_cache_factory(0),sf,1,"127.0.0.1",port))); } usleep(50000); nclient.reset(new sessions::tcp_storage(ips,ports)); }
+	for(int kind=0;kind<3;kind++) for(int prologue=0;prologue<2;prologue++){ bool files=kind==1,net=kind==2; int depth=files?depth_file:net?depth_file+1:depth_mem; std::vector<SOp> A=salphabet(files); std::vector<int> h;
+		std::function<void(int)> rec=[&](int d){ if(d>0){ vf::eval(); g_now=1000000; std::string hs; for(size_t i=0;i<h.size();i++){ if(i) hs+=" ; "; hs+=A[h[i]].name; } std::string cs=std::string(files?"files":net?"network":"memory")+" storage, start="+(prologue?"7 expired sessions":"empty")+" ["+hs+"]"; vf::announce("storage-seq "+cs);
 				booster::shared_ptr<sessions::session_storage> st; sessions::session_memory_storage_factory mf; std::unique_ptr<sessions::session_file_storage> fsobj;
-				if(files){ mkdir(dir.c_str(),0777); if(DIR *dd=opendir(dir.c_str())){ while(struct dirent *e=readdir(dd)){ if(e->d_name[0]=='.') continue; unlink((dir+"/"+e->d_name).c_str()); } closedir(dd); } fsobj.reset(new sessions::session_file_storage(dir,2,1,false)); } else st=mf.get();
-				sessions::session_storage &S= files? static_cast<sessions::session_storage&>(*fsobj) : *st; std::map<std::string,std::pair<std::string,time_t> > M; std::string fail;
+				if(net){ std::string fl; for(int q=0;q<2&&fl.empty();q++){ nclient->remove(SSID[q]); time_t t0; std::string v0; if(nclient->load(SSID[q],t0,v0)) fl="a removed session is still loadable at the start of the sequence"; } for(int i=0;i<7&&fl.empty();i++){ char sid[40]; snprintf(sid,sizeof sid,"e%031d",i); nclient->remove(sid); } if(!fl.empty()){ vf::violation("storage-seq:network:reset",fl+" ["+cs+"]","\"case\":"+vf::jstr(cs)); return; } }
+				if(files){ mkdir(dir.c_str(),0777); if(DIR *dd=opendir(dir.c_str())){ while(struct dirent *e=readdir(dd)){ if(e->d_name[0]=='.') continue; unlink((dir+"/"+e->d_name).c_str()); } closedir(dd); } fsobj.reset(new sessions::session_file_storage(dir,2,1,false)); } else if(!net) st=mf.get();
+				sessions::session_storage &S= files? static_cast<sessions::session_storage&>(*fsobj) : net? static_cast<sessions::session_storage&>(*nclient) : *st; std::map<std::string,std::pair<std::string,time_t> > M; std::string fail;
 				if(prologue){ for(int i=0;i<7;i++){ char sid[40]; snprintf(sid,sizeof sid,"e%031d",i); S.save(sid,g_now+1,"old"); M[sid]=std::make_pair(std::string("old"),g_now+1); } g_now+=2; }
 				auto check_load=[&](const std::string &sid,const char *when){ time_t to=0; std::string v="UNTOUCHED"; bool ok=false; try{ ok=S.load(sid,to,v); }catch(std::exception const &e){ fail=std::string("load throws ")+e.what(); return; } std::map<std::string,std::pair<std::string,time_t> >::iterator m=M.find(sid);
 					bool must= m!=M.end()&&m->second.second>g_now, may= m!=M.end()&&m->second.second>=g_now; if(ok&&!may) fail=std::string(when)+": load("+sid.substr(0,4)+"..) returns a session that was "+(m==M.end()?"removed or never saved":"saved with a deadline that has passed"); else if(!ok&&must) fail=std::string(when)+": load("+sid.substr(0,4)+"..) finds nothing although the session was saved with deadline now+"+std::to_string((long)(m->second.second-g_now)); else if(ok&&(v!=m->second.first||to!=m->second.second)) fail=std::string(when)+": load("+sid.substr(0,4)+"..) returns data/deadline of another save"; if(ok) vf::guard("storage_loads_hit"); else vf::guard("storage_loads_miss"); };
 				for(size_t i=0;i<h.size()&&fail.empty();i++){ const SOp &o=A[h[i]]; switch(o.kind){ case 0: S.save(SSID[o.sid],g_now+o.dl,std::string(3,o.data)); M[SSID[o.sid]]=std::make_pair(std::string(3,o.data),g_now+o.dl); break; case 1: check_load(SSID[o.sid],("step "+std::to_string(i+1)).c_str()); break; case 2: S.remove(SSID[o.sid]); M.erase(SSID[o.sid]); break; case 3: g_now+=o.n; break; case 4: if(files) fsobj->gc(); break; } }
 				if(fail.empty()){ check_load(SSID[0],"audit"); if(fail.empty()) check_load(SSID[1],"audit"); if(fail.empty()&&prologue) for(int i=0;i<7&&fail.empty();i++){ char sid[40]; snprintf(sid,sizeof sid,"e%031d",i); check_load(sid,"audit"); } }
-				if(!fail.empty()){ vf::violation(std::string("storage-seq:")+(files?"files":"memory")+":"+(fail.find("finds nothing")!=std::string::npos?"session-lost":fail.find("returns a session")!=std::string::npos?"ended-session-readable":"wrong-data"),fail+" ["+cs+"]","\"case\":"+vf::jstr(cs)); }
-				vf::guard("storage_sequences"); vf::C().traces++; vf::C().transitions+=h.size(); if(d==depth&&vf::sample_tick(tickc,30011)) vf::sample("{\"storage\":"+vf::jstr(files?"files":"memory")+",\"sequence\":"+vf::jstr(hs)+",\"result\":\"every load agrees with the map model\"}",40); }
+				if(!fail.empty()){ vf::violation(std::string("storage-seq:")+(files?"files":net?"network":"memory")+":"+(fail.find("finds nothing")!=std::string::npos?"session-lost":fail.find("returns a session")!=std::string::npos?"ended-session-readable":"wrong-data"),fail+" ["+cs+"]","\"case\":"+vf::jstr(cs)); }
+				vf::guard("storage_sequences"); vf::C().traces++; vf::C().transitions+=h.size(); if(d==depth&&vf::sample_tick(tickc,30011)) vf::sample("{\"storage\":"+vf::jstr(files?"files":net?"network":"memory")+",\"sequence\":"+vf::jstr(hs)+",\"result\":\"every load agrees with the map model\"}",40); }
 			if(d==depth) return; if(vf::deadline_reached()){ vf::C().exhaustive=false; return; } for(size_t o=0;o<A.size();o++){ if(d==0&&(int)((o+kind+prologue)%n)!=sh) continue; h.push_back((int)o); rec(d+1); h.pop_back(); } };
-		rec(0); } }
+		rec(0); }
+	nclient.reset(); for(size_t i=0;i<nsrv.size();i++) nsrv[i]->stop(); nsrv.clear(); }
 
 static std::map<std::string,time_t> g_dummy_present;
 static void damaged_records(){ Jar jar; json::value s; s["session"]["location"]="server"; s["session"]["server"]["storage"]="memory"; s["session"]["timeout"]=AGE; s["session"]["expire"]="renew"; session_pool pool(s); sessions::session_memory_storage_factory f; booster::shared_ptr<sessions::session_storage> st=f.get(); std::vector<std::string> bad; std::set<std::string> sv; booster::shared_ptr<sessions::session_storage> deco(new Deco(st,&bad,&sv,&g_dummy_present)); pool.storage(std::unique_ptr<sessions::session_storage_factory>(new DecoFactory(deco))); pool.init(); g_now=1000000;
@@ -186,7 +197,7 @@ int main(int argc,char **argv){ vf::init(argc,argv,"C06","model_checking"); bool
 	{ const char *te[]={"fixed","renew"}; for(int i=0;i<2;i++){ Config c; c.location="both"; c.expire=te[i]; c.storage="memory"; c.label="both/"+c.expire+"/memory/two-ops"; cfgs.push_back(c); } }
 	if(!vf::C().replay_file.empty()){ std::ifstream f(vf::C().replay_file); std::stringstream ss; ss<<f.rdbuf(); std::string l=ss.str(); std::string label=vf::jfield(l,"config"); size_t p=l.find("\"history\":["); std::vector<int> h; if(p!=std::string::npos){ size_t e=l.find(']',p); h=vf::parse_choices(l.substr(p+11,e-p-11)); } for(size_t i=0;i<cfgs.size();i++) if(cfgs[i].label==label){ std::vector<std::string> tr; Run r=run_history(cfgs[i],alphabet_for(cfgs[i]),h,vf::scratch_dir()+"/replay",&tr); for(size_t k=0;k<tr.size();k++) printf("  %s\n",tr[k].c_str()); printf("replay: %s\n",r.ok?"history conforms":r.what.c_str()); if(!r.ok) vf::violation(label+":"+r.sig,r.what,"\"config\":"+vf::jstr(label)); } return vf::finish(); }
 	int depth=th?5:4; int nd=th?3:2; double dl=vf::C().budget_s*0.75;
-	vf::C().rule="transition = one request over the real session_interface/session_pool with a simulated browser jar (load, compare everything it reads with the model, apply one of 17 operations, save), a clock advance {1,9,11,99,101}, a browser restart, or one of 7 attacker cookie replacements; configurations location {client,server,both} x expire {fixed,renew,browser} x storage {memory, files}; three two-browser configurations (each browser: 7 operations, stealing the other browser's session cookie; ticks 11/101) to depth 4 (5); two two-operations-per-request configurations (location=both: 4 single operations + all 42 ordered pairs of {set small, set big, erase, clear, on_server(true), on_server(false), reset_session()} in one request, tick 101, attacker replaying the oldest token) to depth 3 (4); state = history replayed on a fresh pool, dedup on the canonical model (jar, live records, deadline sets relative to now); plus the storages themselves as state machines (memory: every sequence of <= 5 (6) of 14 operations {save 2 sids x 2 data x 2 deadlines, load, remove, tick 3/6}; files: <= 3 (4) of 15 incl. gc; from an empty storage and from one holding 7 expired sessions; against a plain map), a no-dedup pass and damaged stored records (every truncation, every 4-byte window set to 10 values). distinct = (configuration, canonical state)";
+	vf::C().rule="transition = one request over the real session_interface/session_pool with a simulated browser jar (load, compare everything it reads with the model, apply one of 17 operations, save), a clock advance {1,9,11,99,101}, a browser restart, or one of 7 attacker cookie replacements; configurations location {client,server,both} x expire {fixed,renew,browser} x storage {memory, files}; three two-browser configurations (each browser: 7 operations, stealing the other browser's session cookie; ticks 11/101) to depth 4 (5); two two-operations-per-request configurations (location=both: 4 single operations + all 42 ordered pairs of {set small, set big, erase, clear, on_server(true), on_server(false), reset_session()} in one request, tick 101, attacker replaying the oldest token) to depth 3 (4); state = history replayed on a fresh pool, dedup on the canonical model (jar, live records, deadline sets relative to now); plus the storages themselves as state machines (memory: every sequence of <= 5 (6) of 14 operations {save 2 sids x 2 data x 2 deadlines, load, remove, tick 3/6}; files: <= 3 (4) of 15 incl. gc; network (two cache servers with memory storages behind one tcp_storage client): <= 4 (5) of 14; from an empty storage and from one holding 7 expired sessions; against a plain map), a no-dedup pass and damaged stored records (every truncation, every 4-byte window set to 10 values). distinct = (configuration, canonical state)";
 	vf::assume("virtual clock via interposed time(); at now == deadline either verdict is accepted; in renew/browser mode an unchanged session may or may not be renewed while less than 10% of its age has elapsed (set of admissible deadlines)"); vf::assume("session ids come from the real /dev/urandom; the model is keyed by the tokens actually issued, so no value is assumed; unpredictability itself is not decidable by enumeration - only freshness (never issued before) is checked"); vf::assume("replay of an old client-side cookie is accepted by design (stateless); only server-side ids must become unusable");
 	vf::parallel(cfgs.size()+1,16,[&](int i){ if(i==(int)cfgs.size()){ damaged_records(); return; } std::string dir=vf::scratch_dir()+"/s"+std::to_string(i); bool two=cfgs[i].label.find("two-browsers")!=std::string::npos; bool tops=cfgs[i].label.find("two-ops")!=std::string::npos; bfs(cfgs[i],tops?(th?4:3):two?(th?5:4):depth,dl,dir); if(tops) return; if(cfgs[i].storage=="memory"&&!two) nodedup(cfgs[i],nd,dir); },th?1500:115);
 	vf::parallel(16,16,[&](int sh){ storage_pass(sh,16,th?6:5,th?4:3,vf::scratch_dir()+"/stseq"+std::to_string(sh)); },th?1500:115);
